@@ -436,7 +436,8 @@ def e2e_case(ctx: Ctx):
             "host": [[10.0, t + 10.0]],
             # the statement holds for every option set: vary switches that change which other stages run
             "opts": rng.choice([[], [], ["--drop_globals"], ["-M"], ["-t"], ["--disable_tb"],
-                                ["--drop_globals", "-t"]])}
+                                ["--drop_globals", "-t"]]),
+            "doc": rng.choice([None, None, "ns", "ms"])}
 
 
 def run_e2e(case):
@@ -452,8 +453,12 @@ def run_e2e(case):
     res = []
     for fr in (Fraction(f), Fraction(f) * Fraction(case["k"])):
         with contextlib.redirect_stdout(io.StringIO()):
+            doc = copy.deepcopy(inp)
+            if case.get("doc"):
+                # the object form of a trace file with the viewer hint of the chrome format (ts / dur stay microseconds)
+                doc = {"traceEvents": doc, "displayTimeUnit": case["doc"]}
             r = stage.e2e([f"--freq={_freq_arg(fr)}:1100", "--keep_prep", *case.get("opts", [])],
-                          {"trace_rank_0.json": copy.deepcopy(inp)})
+                          {"trace_rank_0.json": doc})
         res.append(r)
     return inp, res
 
